@@ -15,6 +15,15 @@ P = {
  "C03": ("LibTrace", "TLA+ spec (Lib: ValHOTPExpect = declarative window set) + small-scope TLC model of the window loop + TLC trace validation of recorded ValidateHOTP calls", "5/C03"),
  "C04": ("LibTrace", "TLA+ spec (Lib: ValTOTPExpect, MaxWork) + small-scope TLC model + TLC trace validation of recorded ValidateTOTP calls incl. HMAC-evaluation counter", "5/C04"),
  "C07": ("LibTrace", "TLA+ spec (RFC4648: Encode/Region/KeyOf) + TLC trace validation of DecodeSecret and spelling groups on every entry point", "5/C07"),
+ "C05": ("LibTrace", "TLA+ spec (RFC6287: Msg layout, EffCfg from the suite name; Lib: GenOCRAExpect) + TLC trace validation of recorded GenerateOCRA calls; message observed byte for byte through the HMAC hook", "5/C05"),
+ "C06": ("LibTrace", "TLA+ spec (Lib: ValOCRAExpect = iff with generation) + TLC trace validation of recorded ValidateOCRA calls (edits, same-value strings, nearest admissible neighbours)", "5/C06"),
+ "C08": ("LibTrace", "TLA+ spec with stream state (usedIv: consumed intervals of the substituted crypto/rand.Reader) + TLC trace validation of recorded RandomSecret histories, sequential and concurrent", "5/C08"),
+ "C10": ("LibTrace", "TLA+ spec: reply relation total over values/errors only (Returned) for every exported operation + TLC trace validation of calls with extreme arguments under recover() and a watchdog", "5/C10"),
+ "C12": ("LibTrace", "TLA+ frame conditions (FrameFails: argument memory incl. spare capacity, defaults, registry, retained results) + TLC trace validation of recorded memory snapshots", "5/C12"),
+ "C14": ("LibTrace", "TLA+ spec (RFC6287: SuiteUsable, Admissible) + TLC trace validation of the length grid 0..140 per field and the usability grid through Validate/Generate/ValidateOCRA", "5/C14"),
+ "C15": ("LibTrace", "TLA+ spec (RFC6287: Reading = independent grammar reading of suite strings) + TLC trace validation of NewRawSuite/ListSuites/IsKnownSuite/SuiteConfigFromRaws over advertised names, grammar enumeration and malformed classes", "5/C15"),
+ "C16": ("LibTrace", "TLA+ spec (Lib: URL round-trip law, Dec: Atoi denotation) + TLC trace validation of generate->String->Parse->ParseOTPAuthURL round trips and parse-only texts", "5/C16"),
+ "C17": ("LibTrace", "TLA+ spec (Dec: bignum decimal->hex, ParseUint acceptance; Lib helper operators) + TLC trace validation of helper calls and numeric-question end-to-end generation", "5/C17"),
  "C13": ("LibTrace", "TLA+ spec (Lib: VerdictWellFormed, Discloses) + TLC trace validation of every failing call", "5/C13"),
 }
 
